@@ -46,7 +46,17 @@ InlineWires == <<
 >>
 \* 17: ECHO of multi-byte UTF-8 text (2-, 3-, 4-byte characters): lengths are byte counts
 Utf8Wires == <<Encode(Arr(<<B(ECHOb), B(<<195, 169, 226, 130, 172, 240, 159, 152, 128>>)>>))>>
-AllWires == [i \in 1..Len(Vals) |-> Encode(Vals[i])] \o InlineWires \o Utf8Wires
+\* 18..23: frames built from minimal-size elements (RESP3 null = 3 bytes, the shortest frame there is): a decoder
+\* that reasons about "at least so many bytes per element" is exact only on these
+MinVals == <<
+    Arr(<<Null>>),                                  \* 18 *1 _
+    Arr(<<Null, Null>>),                            \* 19 *2 _ _
+    Arr(<<Null, Null, Null>>),                      \* 20 *3 _ _ _
+    Arr(<<Arr(<<Null>>)>>),                         \* 21 nested, innermost array all nulls
+    Arr(<<Int(<<55>>), Arr(<<Null, Null>>)>>),      \* 22 an integer and an all-null array
+    Arr(<<Arr(<<Null, Null>>), Arr(<<>>), Arr(<<Null>>)>>)  \* 23 all-null arrays around an empty one
+>>
+AllWires == [i \in 1..Len(Vals) |-> Encode(Vals[i])] \o InlineWires \o Utf8Wires \o [i \in 1..Len(MinVals) |-> Encode(MinVals[i])]
 Wires == {AllWires[i] : i \in Univ}
 
 Init == RInit /\ hist = <<>>
@@ -144,9 +154,10 @@ RoundTripAll ==
         /\ RoundTrip(Vals[i])
         /\ RoundTrip(Arr(<<Vals[i], Vals[i]>>))
         /\ \A j \in 1..Len(Vals) : RoundTrip(Arr(<<Vals[j], Arr(<<Vals[i]>>)>>))
+MinRoundTrip == \A m \in 1..Len(MinVals) : RoundTrip(MinVals[m]) /\ RoundTrip(Arr(<<MinVals[m], MinVals[m]>>))
 InlineAll ==
     /\ Top(InlineWires[1]) = Fr(Arr(<<B(PINGb)>>), 7)
     /\ Top(InlineWires[2]) = Fr(Arr(<<B(<<101, 99, 104, 111>>), B(<<97>>)>>), 10)
     /\ \A w \in {InlineWires[1], InlineWires[2]} : \A n \in 0..Len(w) - 1 : Top(SubSeq(w, 1, n)) = Need
-ASSUME Lemmas => RoundTripAll /\ InlineAll      \* evaluated once, by the runs that set Lemmas = TRUE
+ASSUME Lemmas => RoundTripAll /\ MinRoundTrip /\ InlineAll      \* evaluated once, by the runs that set Lemmas = TRUE
 =============================================================================
